@@ -241,3 +241,6 @@ register(Unit(P, "SCHEMA/append_data", cp.h_append_data, functions=[f"{TX}:Trans
 for _cas in (False, True):
     register(Unit(P, f"INIT-ONCE/initialize_table-{'cas' if _cas else 'local'}", c10.h_initialize_table(_cas),
                   functions=[f"{MM}:MetadataManager.initialize_table"], replay=_replay_create))
+
+from contracts import lemmas as _L  # noqa: E402
+register(Unit(P, "LEMMA/ONE-INIT", _L.h_one_init, functions=[], replay=_replay_create, uses=_L.ONE_INIT_USES))
